@@ -27,6 +27,7 @@ func checkC09(c *Ctx, r *Report) {
 	ruleReadDiscipline(c, r, "full-reads")
 	ruleUvarintLen(c, r, "varint-length")
 	ruleConstTypes(c, r, "const-types")
+	ruleRejectsOnlyDamage(c, r, "rejects-only-damage")
 	r.rule("prog-owners", 20, "only the listed functions touch Prog.code/constants/positions; Load fills slices it allocated itself (no aliasing of the read buffer)")
 	for _, f := range []string{"code", "constants", "positions"} {
 		c.ownership(r, "prog-owners", "Prog", f, progOwners[f], false)
